@@ -10,6 +10,8 @@ mod sweep;
 mod c07;
 mod langs;
 mod c08;
+mod c09;
+mod hist;
 mod c13;
 mod c14;
 mod c15;
@@ -55,6 +57,7 @@ fn main() {
                 "C06" => c06::run(tier),
                 "C07" => c07::run(tier),
                 "C08" => c08::run(tier),
+                "C09" => c09::run(tier),
                 "C13" => c13::run(tier),
                 "C14" => c14::run(tier),
                 "C15" => c15::run(tier),
@@ -89,6 +92,7 @@ fn main() {
                 "c15" => c15::replay(case),
                 "c04" => c04::replay(case),
                 "c05" => c05::replay(case),
+                "c09" => c09::replay(case),
                 "val-tree" => c16::replay_tree(case),
                 "val-op" => c16::replay_op(case),
                 "c06-text" => c06::replay_text(case),
